@@ -1422,8 +1422,10 @@ def r_backpointers(m, rep, R):
                       'goal push %s is %s, expected %s' % (fld, canon(f[fld]), canon(spec)))
 
 
-def r_guards(m, rep, R):
-    """root test on the goal push; no unary step at the full span of a multi-word sentence."""
+def r_guards(m, rep, R, allow_stricter=True):
+    """root test on the goal push; no unary step at the full span of a multi-word sentence.  With allow_stricter=False the unary
+    guard must also let one-word sentences through (`length == 1 ||`): without that a one-word sentence whose only derivations
+    need a unary step is reported as failed although a derivation exists."""
     ln = V(m.p_len)
     for s in m.by_kind.get('goal', []):
         Lp = s.f['left']
@@ -1449,11 +1451,11 @@ def r_guards(m, rep, R):
                 seen.append(ds)
                 if ds == sorted([canon(('bin', '==', ln, LIT(1))), canon(('bin', '!=', M(Lp, 'span_length'), ln))]):
                     ok = True
-                if ds == [canon(('bin', '!=', M(Lp, 'span_length'), ln))] or \
-                        ds == [canon(('bin', '<', M(Lp, 'span_length'), ln))]:
-                    ok = True   # stricter variants still satisfy the property
+                if allow_stricter and (ds == [canon(('bin', '!=', M(Lp, 'span_length'), ln))] or
+                                       ds == [canon(('bin', '<', M(Lp, 'span_length'), ln))]):
+                    ok = True   # stricter variants still satisfy the property (no unary step at the root of a multi-word sentence)
         rep.check(ok, R, s.where(), 'unary:guard', 'unary expansion requires length == 1 or span_length != length',
-                  'unary expansion is guarded by %s' % seen)
+                  'unary expansion is guarded by %s%s' % (seen, '' if allow_stricter else ': a one-word sentence gets no unary step, so one whose only derivations need one (N -> NP) is reported as failed'))
 
 
 def r_heads(m, rep, R):
